@@ -22,6 +22,11 @@ type Watch struct {
 	// events holds excess events when they are bundled in a stream.PayloadEvents,
 	// until Next is called again.
 	events []stream.Event
+
+	// idx is the index of the last event (batch) received from the subscription.
+	// It must outlive a single call to nextEvent, which returns after every
+	// event: see the comment there.
+	idx uint64
 }
 
 // Next returns the next WatchEvent, blocking until one is available.
@@ -62,7 +67,6 @@ func (w *Watch) nextEvent(ctx context.Context) (*stream.Event, error) {
 		return &event, nil
 	}
 
-	var idx uint64
 	for {
 		e, err := w.sub.Next(ctx)
 		if err != nil {
@@ -88,10 +92,10 @@ func (w *Watch) nextEvent(ctx context.Context) (*stream.Event, error) {
 		//
 		// We should fix this problem at the root, but it's complicated, so for now
 		// we'll work around it.
-		if e.Index <= idx {
+		if e.Index <= w.idx {
 			continue
 		}
-		idx = e.Index
+		w.idx = e.Index
 
 		switch t := e.Payload.(type) {
 		case eventPayload:
